@@ -146,6 +146,50 @@ def mutate(rng, t):
 def rs(rng, n):
     return "".join(rng.choice("IXYZ") for _ in range(n))
 
+# ---- printing after in-place edits: "printing a Pauli string and constructing from the printed text is the identity" must
+# hold for strings that were printed BEFORE being edited as well (a cached text must not survive an edit)
+_PAIR = {(0, 0): "I", (1, 0): "X", (1, 1): "Y", (0, 1): "Z"}
+def edited_text(line):
+    from paulie.common.pauli_string_bitarray import PauliString
+    from paulie.common.pauli_string_factory import get_pauli_string
+    try:
+        _, text, ops = line.split(" ")
+        P = PauliString(pauli_str=text)
+        str(P); repr(P)                                   # print first
+        for k, op in enumerate(ops.split(";")):
+            t = op.split(":")
+            if t[0] == "set": P.set_substring(int(t[1]), t[2])
+            elif t[0] == "item": P[int(t[1])] = t[2]
+            elif t[0] == "inc": P.inc()
+            elif t[0] == "setps": P.set_substring(int(t[1]), PauliString(pauli_str=t[2]))
+            b = P.bits.tolist()
+            letters = "".join(_PAIR[(b[2 * i], b[2 * i + 1])] for i in range(len(b) // 2))
+            if str(P) != letters:
+                return f"after {op} (step {k + 1}) str(P) = {str(P)!r} but the letters stored in P are {letters!r}"
+            if not (PauliString(pauli_str=str(P)) == P):
+                return f"after {op} (step {k + 1}) constructing from the printed text {str(P)!r} does not give back P ({letters!r})"
+            if repr(P) != f"PauliString({letters})" and letters not in repr(P):
+                return f"after {op} (step {k + 1}) repr(P) = {repr(P)!r} does not show {letters!r}"
+            g = get_pauli_string([P])
+            if [str(x) for x in g] != [letters]:
+                return f"after {op} (step {k + 1}) get_pauli_string([P]) = {[str(x) for x in g]} for P = {letters!r}"
+        return "ok"
+    except Exception as e:
+        return exc_name(e)
+
+def gen_edited(rng):
+    n = rng.randint(1, 8)
+    text = "".join(rng.choice("IXYZ") for _ in range(n))
+    ops = []
+    for _ in range(rng.randint(1, 5)):
+        r = rng.random()
+        i = rng.randrange(n)
+        if r < 0.35: ops.append(f"item:{i}:{rng.choice('IXYZ')}")
+        elif r < 0.65: ops.append(f"set:{i}:{''.join(rng.choice('IXYZ') for _ in range(rng.randint(1, n - i)))}")
+        elif r < 0.85: ops.append(f"setps:{i}:{rng.choice('IXYZ')}")
+        else: ops.append("inc")
+    return f"edtext {text} {';'.join(ops)}"
+
 def build_streams(rng, tier):
     th = tier == "thorough"
     N = 300000 if th else 30000
@@ -194,6 +238,8 @@ def build_streams(rng, tier):
         Stream("grammar-directed", valid, hp, oracle_parse, tag=tag, nontrivial=lambda l, o: "5f" in l),
         Stream("mutated", mutated, hp, oracle_parse, tag=tag),
         Stream("k-local", kl, hg, oracle_klocal, tag=tag),
+        Stream("print-after-in-place-edit", [gen_edited(rng) for _ in range(6000 if tier == "thorough" else 1500)], edited_text,
+               oracle=lambda l, o: None if o == "ok" else o, model=False, tag=lambda l, o: "edited:" + ("ok" if o == "ok" else "bad")),
     ]
 
 RULE = ("grammar-directed sparse/dense/mixed texts with optional size (50%), dense round trips (10%), 1-2 character "
